@@ -31,7 +31,9 @@ RULE = (
     "time/datetime/set/complex/tuple, custom json_default extensions incl. one that overrides eliot's encoding of set/"
     "complex/Path; consecutive messages that are equal in Python but different JSON (0.0/-0.0, 1/True/1.0) and the same "
     "dict object offered again after an in-place change) x file flavour (real temp file 'ab', 'a' utf-8, unbuffered 'wb', BytesIO, StringIO, TextIOWrapper, codecs.open / codecs.getwriter text files "
-    "whose forwarded .mode says 'wb', SpooledTemporaryFile binary/text; optionally one flush() that fails with BlockingIOError after the line was accepted) "
+    "whose forwarded .mode says 'wb', SpooledTemporaryFile binary/text, a write-through TextIOWrapper over a buffered binary file, a line-buffered text file; optionally "
+    "one flush() that fails with BlockingIOError after the line was accepted, or a re-openable wrapper (log rotation between two messages); real "
+    "files are re-read by an independent reader after every call) "
     "x default/custom json_default. Non-trivial: the messages contain a non-ASCII or control character, a boundary "
     "number, nesting >= 3, or a rich type. Distinct = distinct canonical JSON of the case."
 )
@@ -41,8 +43,9 @@ ASSUMPTIONS = [
     "timezone-aware datetime.time values are excluded by construction (open known finding F8) and reproduced separately",
 ]
 
-FILE_KINDS = ["tmp_ab", "tmp_a", "tmp_wb0", "bytesio", "stringio", "textio", "codecs_open", "codecs_writer", "spooled_b", "spooled_t"]
+FILE_KINDS = ["tmp_ab", "tmp_a", "tmp_wb0", "bytesio", "stringio", "textio", "codecs_open", "codecs_writer", "spooled_b", "spooled_t", "textio_wt", "tmp_line"]
 BINARY_KINDS = ("tmp_ab", "tmp_wb0", "bytesio", "spooled_b")
+PATH_KINDS = ("tmp_ab", "tmp_a", "tmp_wb0", "codecs_open", "codecs_writer", "textio_wt", "tmp_line")
 
 
 class Proxy(object):
@@ -78,6 +81,18 @@ class Proxy(object):
             self.injected = BlockingIOError(11, "write could not complete without blocking")
             raise self.injected
         return self._real.flush()
+
+
+class Reopenable(object):
+    """A log file that can be re-opened (log rotation): every attribute is looked up on the file that is current."""
+
+    def __init__(self, current):
+        self._current = current
+
+    def __getattr__(self, name):
+        if name.startswith("__"):
+            raise AttributeError(name)
+        return getattr(self._current, name)
 
 
 def custom_default(o):
@@ -152,6 +167,13 @@ def _open(kind, tmpdir):
 
         path = os.path.join(tmpdir, "log")
         f = codecs.getwriter("utf-8")(open(path, "wb"))
+    elif kind == "textio_wt":
+        # write-through text layer over an ordinary buffered binary file: only an explicit flush reaches the disk
+        path = os.path.join(tmpdir, "log")
+        f = io.TextIOWrapper(open(path, "wb"), encoding="utf-8", newline="\n", write_through=True)
+    elif kind == "tmp_line":
+        path = os.path.join(tmpdir, "log")
+        f = open(path, "w", buffering=1, encoding="utf-8", newline="\n")
     elif kind == "spooled_b":
         f = tempfile.SpooledTemporaryFile(max_size=1 << 14, mode="w+b")
     elif kind == "spooled_t":
@@ -211,7 +233,10 @@ def _check(case):
         f, path = _open(kind, tmpdir)
         try:
             proxy = Proxy(f, case.get("flaky_flush"))
-            dest = FileDestination(file=proxy, **kwargs)
+            rotate_after = case.get("rotate_after") if path is not None else None
+            target = Reopenable(proxy) if rotate_after is not None else proxy
+            dest = FileDestination(file=target, **kwargs)
+            rotated = None
             # the other mode, for the cross-mode clause
             other_real = io.StringIO(newline="\n") if kind in BINARY_KINDS else io.BytesIO()
             other = Proxy(other_real)
@@ -300,6 +325,20 @@ def _check(case):
                 )
                 expected_total += raw
                 require(snapshot == canon(spec), "harness", "spec mutated")
+                if path is not None and not case.get("flaky_flush"):
+                    # a reader never sees a partial or missing line between logging calls
+                    with open(path, "rb") as reader:
+                        on_disk = reader.read()
+                    require(on_disk == expected_total, "not-on-disk", lambda: "after the call returned the file holds %r, expected %r" % (on_disk[-120:], expected_total[-120:]))
+                if rotate_after is not None and rotated is None and msgs.index(spec) >= rotate_after if spec in msgs else False:
+                    # log rotation: the file is renamed and the wrapper re-opened on a fresh one
+                    f.close()
+                    os.rename(path, path + ".1")
+                    rotated = expected_total
+                    expected_total = b""
+                    f, _ = _open(kind, tmpdir)
+                    proxy = Proxy(f, None)
+                    target._current = proxy
             if hasattr(f, "flush"):
                 pass
             for ref, snap in proxy.held + other.held:
@@ -309,6 +348,10 @@ def _check(case):
                 f.flush()
             content = _content(kind, f, path)
             require(content == expected_total, "file-content", lambda: "file holds %r, writes were %r" % (content[:200], expected_total[:200]))
+            if rotated is not None:
+                with open(path + ".1", "rb") as old_file:
+                    old_content = old_file.read()
+                require(old_content == rotated, "file-content", lambda: "rotated file holds %r, writes before the rotation were %r" % (old_content[:200], rotated[:200]))
         finally:
             try:
                 f.close()
@@ -322,6 +365,8 @@ def classify(case, info):
     labels = ["file:" + case["file"], "default:" + case["default"]]
     if case.get("flaky_flush"):
         labels.append("one-flush-would-block")
+    if case.get("rotate_after") is not None and case["file"] in PATH_KINDS:
+        labels.append("file-re-opened-between-messages")
     if info and info.get("excluded_f9"):
         labels.append("excluded-by-construction:F9")
     if feats["nonascii"]:
@@ -398,9 +443,10 @@ def strategy():
     # small draws first: a large message list must not starve the later draws
     return st.one_of(
         st.builds(
-            lambda f, flaky, picks, msgs: {"msgs": with_twins(msgs, picks), "file": f, "default": "eliot", "flaky_flush": flaky},
+            lambda f, flaky, rot, picks, msgs: {"msgs": with_twins(msgs, picks), "file": f, "default": "eliot", "flaky_flush": flaky, "rotate_after": rot if flaky is None else None},
             st.sampled_from(FILE_KINDS),
             st.sampled_from([None, None, None, 1, 2, 3]),
+            st.sampled_from([None, None, 0, 1]),
             st.lists(st.sampled_from([0, 0, 1, 1, 2, 3]), max_size=4),
             st.lists(st.one_of(message_specs(False), st.dictionaries(V.keys(), st.sampled_from([0, 0.0, -0.0, 1, True, 1.0, 3, 3.0, [0.0], {"z": 1}]), min_size=1, max_size=3)), min_size=1, max_size=4),
         ),
